@@ -177,8 +177,15 @@ def variant(res, name, flags):
 def prune_old(keep):
     base = os.path.dirname(keep)
     ds = sorted((os.path.join(base, x) for x in os.listdir(base) if x.startswith('engine-')), key=os.path.getmtime)
+    def recent(x):
+        # a run directory another check may still be using (checks may run side by side): touched within the last 90 minutes
+        try:
+            m = max([os.path.getmtime(x)] + [os.path.getmtime(os.path.join(x, f)) for f in os.listdir(x)])
+        except OSError:
+            return True
+        return time.time() - m < 5400
     for x in ds[:-6]:
-        if x != keep:
+        if x != keep and not recent(x):
             shutil.rmtree(x, ignore_errors=True)
 
 
